@@ -186,6 +186,9 @@ func checkC02(c *Ctx) {
 		c.Undecided("C02-R1", "package tcell", "-", "not loaded")
 		return
 	}
+	c.Rule("C02-R15", "which parsers the collect loop tries depends on the terminal's description and on the scan (nothing pending / expiry) only, never on the modes switched on at the moment; the focus parser, which alone holds back a lone ESC on a terminal without ESC-introduced keys, is tried on every terminal")
+	c.Expect("C02-R15", 6)
+	checkCollectGates(c, p, "C02-R15", nil)
 	parsers := inputParsers(p)
 	if len(parsers) < 6 {
 		c.Undecided("C02-R1", "parsers", "-", fmt.Sprintf("found %d input parsers by signature, expected 6", len(parsers)))
